@@ -322,3 +322,29 @@ Example C12_source_cs_read_runs :
    | OReturn v s => (v, Imp.lookup strm_var (vars s)) = (VInt SBDF_OK, Some (VBytes [98]))
    | _ => False end).
 Proof. vm_compute. repeat split. Qed.
+
+(* sbdf_cs_read as a whole - ANY property count, every byte stream without bit arrays (the values and each property's values
+   are plain or run-length, unknown encodings included), EVERY allocation schedule.  props_nobit / props_end follow the model's
+   readers through the properties (a name through read_string, a value array through va_read, count times).
+   The call returns a status.  On every failure - in the section marker, the struct, the values, the count (missing, negative,
+   too large for the arrays), either of the two pointer arrays, any name, any property's values, stream or allocation - the
+   out-cell is untouched and everything the call allocated in the cell heap has been released again by its own
+   sbdf_cs_destroy (values, the property arrays read so far, the two arrays, the struct: once each).  On success the stream
+   stands where the model's readers leave it behind the last property, and ONE sbdf_cs_destroy on the result releases every
+   block the read allocated, once.  (The translation turns "goto end" into a loop that runs once: tools/c2imp.py.) *)
+From Sbdf Require Import ImpFactsCsReadProps.
+Theorem C12_source_cs_read_full : forall rf rp fo po k sx m h, Forall byte sx ->
+  (forall s1, sec_expect SBDF_COLUMNSLICE_SECTIONID sx = Ok (tt, s1) -> forall t s2, s1 <> 3 :: t :: s2) ->
+  (forall s1 va s2 v s3, sec_expect SBDF_COLUMNSLICE_SECTIONID sx = Ok (tt, s1) -> Va.va_read false None s1 = Ok (va, s2) -> read_int32 false s2 = Ok (v, s3) -> props_nobit (Z.to_nat v) s3) ->
+  exists f0, forall f, (f0 <= f)%nat -> exists st fin,
+    callC prog_env f prog_sbdf_cs_read [VPtr rf fo; VPtr rp po] m k sx h = OReturn (VInt st) fin /\ prefix_of m (inb fin) /\
+    ((st = SBDF_OK /\ Imp.lookup "*out" (vars fin) = Some (VCell (List.length h) 0) /\
+        (exists s1 va s2 v s3 s', sec_expect SBDF_COLUMNSLICE_SECTIONID sx = Ok (tt, s1) /\ Va.va_read false None s1 = Ok (va, s2) /\ read_int32 false s2 = Ok (v, s3) /\ 0 <= v /\
+                                  props_end (Z.to_nat v) s3 = Some s' /\ Imp.lookup strm_var (vars fin) = Some (VBytes s')) /\
+        exists hnew, Imp.lookup cells_var (vars fin) = Some (VHeap (h ++ hnew)) /\ (1 <= List.length hnew)%nat /\
+          forall k' s', exists f1, forall g, (f1 <= g)%nat -> exists fin2,
+            callC prog_env g prog_sbdf_cs_destroy [VCell (List.length h) 0] (inb fin) k' s' (h ++ hnew) = OReturn (VInt 0) fin2 /\
+            inb fin2 = inb fin /\ Imp.lookup cells_var (vars fin2) = Some (VHeap (h ++ nones (List.length hnew))))
+     \/ (st < 0 /\ Imp.lookup "*out" (vars fin) = Some VUndef /\ exists j, Imp.lookup cells_var (vars fin) = Some (VHeap (h ++ nones j)))).
+Proof. exact cs_read_full_source. Qed.
+Print Assumptions C12_source_cs_read_full.
